@@ -324,6 +324,29 @@ func c10Only(m *hapb.HeartbeatMessage, name string) *hapb.HeartbeatMessage {
 	return r
 }
 
+// queued on m.mu behind a pending writer; reports what it sees when it is admitted
+func c10GapReader(m *Manager, sm *SRGStateMachine, name string, seen chan string) {
+	m.mu.RLock()
+	// both values are read while m.mu is read-held: the interface call cannot enter another critical section now
+	cnt, prio := m.ifDownCount[name], sm.Priority()
+	m.mu.RUnlock()
+	seen <- fmt.Sprintf("%d,%d", cnt, prio)
+}
+
+// spins until some goroutine running fn is blocked in (*RWMutex).RLock
+func c10WaitBlockedInRLock(fn string) {
+	buf := make([]byte, 1<<20)
+	for {
+		n := runtime.Stack(buf, true)
+		for _, g := range strings.Split(string(buf[:n]), "\n\n") {
+			if strings.Contains(g, fn) && strings.Contains(g, "RWMutex).RLock") {
+				return
+			}
+		}
+		runtime.Gosched()
+	}
+}
+
 func c10Arg(tok string) int {
 	i := strings.IndexByte(tok, ':')
 	if i < 0 {
@@ -703,6 +726,36 @@ func c10RunCaseOnce(f []string) (res string) {
 					runtime.Gosched()
 				}
 			}
+		case "xg", "xh":
+			// interface down/up with a GAP READER: is the down-count update and the priority adjustment ONE m.mu
+			// critical section?  1. the harness read-holds m.mu; 2. the call is started and blocks in its m.mu.Lock()
+			// (pending writer: TryRLock fails); 3. a reader goroutine calls m.mu.RLock() and is therefore queued
+			// behind the pending writer (seen blocked in the goroutine dump); 4. the harness releases its read lock.
+			// sync.RWMutex admits the queued reader at the call's FIRST Unlock, before the call can lock again: the
+			// reader sees the state between the call's first and any second critical section and reports
+			// (down count, effective priority) -- they must already agree.
+			k := c10Arg(tok)
+			ev := events.InterfaceStateEvent{SwIfIndex: uint32(k), Name: fmt.Sprintf("if%d", k), AdminUp: true, LinkUp: op == "xh"}
+			name, tracked := n.m.ifToSRG[uint32(k)]
+			if !tracked {
+				n.m.handleInterfaceEvent(events.Event{Data: ev})
+				break
+			}
+			sm := n.m.srgs[name]
+			n.m.mu.RLock()
+			fin := make(chan struct{})
+			go func() { n.m.handleInterfaceEvent(events.Event{Data: ev}); close(fin) }()
+			for n.m.mu.TryRLock() { // until the call's m.mu.Lock() is pending
+				n.m.mu.RUnlock()
+				runtime.Gosched()
+			}
+			seen := make(chan string, 1)
+			go c10GapReader(n.m, sm, name, seen)
+			c10WaitBlockedInRLock("c10GapReader")
+			n.m.mu.RUnlock()
+			g := <-seen
+			<-fin // the call may publish a promotion meanwhile: the probe token goes first, as in the model
+			sink = append([]string{n.who() + ":gap=" + g}, sink...)
 		case "xa", "xu":
 			// interface notification with a lock probe: the group's lock is read-held, so the call blocks when it
 			// enters sm.AdjustPriority (pending writer => TryRLock fails: definite handshake); at that moment m.mu
